@@ -516,8 +516,32 @@ func (ex *Exec) unifyInts(a, b *Value) (*Term, *Term) {
 		}
 		return x, ex.tb.BVZeroExt(wx-wy, y)
 	}
+	// an ite tree whose leaves are integer literals (a table written as a pred) adapts like a literal
+	if x.Sort.IsBV() {
+		if t := ex.litTreeToBV(y, x.Sort.BVWidth()); t != nil {
+			return x, t
+		}
+	}
+	if y.Sort.IsBV() {
+		if t := ex.litTreeToBV(x, y.Sort.BVWidth()); t != nil {
+			return t, y
+		}
+	}
 	specFail("cannot combine sorts %s and %s", x.Sort, y.Sort)
 	return nil, nil
+}
+
+func (ex *Exec) litTreeToBV(t *Term, w int) *Term {
+	if t.ival != nil {
+		return ex.tb.BV(t.ival, w)
+	}
+	if t.Op == "ite" && len(t.Args) == 3 {
+		a, b := ex.litTreeToBV(t.Args[1], w), ex.litTreeToBV(t.Args[2], w)
+		if a != nil && b != nil {
+			return ex.tb.Ite(t.Args[0], a, b)
+		}
+	}
+	return nil
 }
 
 func (ex *Exec) specBinary(env *Env, e *EBinary) *Value {
